@@ -805,6 +805,14 @@ func (o *Optimizer) algebraicSimplify(op ast.BinOp, left, right ast.Expr, leftIs
 	isTrue := isBool && boolLit.Value
 	isFalse := isBool && !boolLit.Value
 
+	// Rules that drop the other operand, or evaluate it twice, are only valid
+	// when evaluating it has no effect
+	if !isSideEffectFree(varExpr) {
+		if (op == ast.Mul && (isZero || isTwo)) || (op == ast.And && isFalse) || (op == ast.Or && isTrue) {
+			return nil
+		}
+	}
+
 	switch op {
 	case ast.Add:
 		// x + 0 = x, 0 + x = x
@@ -860,6 +868,26 @@ func (o *Optimizer) algebraicSimplify(op ast.BinOp, left, right ast.Expr, leftIs
 	}
 
 	return nil
+}
+
+// isSideEffectFree reports whether evaluating the expression can be skipped or
+// repeated without an observable difference: variables, literals and operators
+// over them. Anything else (calls, field access, ...) is assumed to have effects.
+func isSideEffectFree(expr ast.Expr) bool {
+	switch e := expr.(type) {
+	case *ast.VariableExpr, *ast.LiteralExpr, ast.VariableExpr, ast.LiteralExpr:
+		return true
+	case *ast.BinaryOpExpr:
+		return isSideEffectFree(e.Left) && isSideEffectFree(e.Right)
+	case ast.BinaryOpExpr:
+		return isSideEffectFree(e.Left) && isSideEffectFree(e.Right)
+	case *ast.UnaryOpExpr:
+		return isSideEffectFree(e.Right)
+	case ast.UnaryOpExpr:
+		return isSideEffectFree(e.Right)
+	default:
+		return false
+	}
 }
 
 // exprKey creates a unique key for an expression for CSE
